@@ -46,6 +46,13 @@ theorem no_rule_passthrough (rules : List Start) (hb : PV.Spec.Flatten.bmpOnly r
   rw [apply_eq_spec rules hb isSpace cps hs]
   exact PV.Lemmas.Flatten.flattenSpec_no_rule rules isSpace _ cps (Nat.le_succ _) hn
 
+/-- "the listed punctuation substitutions for the language": the table the running code has BUILT for each of the five languages
+    (dumped from `LookupFlatten`) is exactly the table that the rule arrays in the source text give when each array goes to the
+    languages it is listed for (general: all; quotes: en, de, es; English right-boundary and digit-brace rules: en; French
+    guillemets: fr) — nothing more, nothing less, in the same order. -/
+theorem generated_tables_are_the_listed_ones : PV.Gen.flattenLangs = PV.Gen.flattenListedLangs := by
+  decide +kernel
+
 /-- the generated tables of all five languages satisfy the BMP hypothesis. -/
 theorem generated_tables_bmp : ∀ lt ∈ PV.Gen.flattenLangs, PV.Spec.Flatten.bmpOnly lt.2 = true := by
   intro lt h
